@@ -64,6 +64,8 @@ Bin(k, v, u) ==
       R(st, a, b) == [st |-> st, a |-> a, b |-> b, ft |-> j.ft, fn |-> j.fn]
       Bad == R("bad", RZero, RZero)
   IN IF v.st = "bad" \/ u.st = "bad" THEN Bad
+     ELSE IF k = "div" /\ (u.st = "opaque" \/ (u.a[1] = 0 /\ u.b[1] = 0)) THEN Bad     \* division by zero, or by a function value
+     ELSE IF k = "pow" /\ (v.st = "opaque" \/ u.st = "opaque") THEN Bad
      ELSE IF v.st = "opaque" \/ u.st = "opaque" THEN R("opaque", RZero, RZero)
      ELSE CASE k = "add" -> R("val", RAdd(v.a, u.a), RAdd(v.b, u.b))
             [] k = "sub" -> R("val", RAdd(v.a, RNeg(u.a)), RAdd(v.b, RNeg(u.b)))
@@ -190,7 +192,6 @@ Builtin(g) ==
     [] g \in {"c3x", "rc3x", "c3sqrtx"} -> <<0, 4>>
     [] g = "c4x" -> <<0, 5>>
     [] OTHER -> <<-1, -1>>
-Arity(P, g, k) == IF k > 0 THEN (IF P.gates[k].name = g THEN <<P.gates[k].np, P.gates[k].nq>> ELSE <<-2, -2>>) ELSE Builtin(g)
 \* a gate name is visible in definition number k only if it is a library name or defined earlier
 Visible(P, g, upto) == IF \E j \in 1..upto : P.gates[j].name = g
                        THEN LET d == P.gates[CHOOSE j \in 1..upto : P.gates[j].name = g] IN <<d.np, d.nq>>
@@ -333,7 +334,7 @@ RiskFeature(P) == LET S == {i \in 1..Len(P.stmts) : StmtRisk(P.stmts[i]) \in {"b
 
 FlatError(F) ==
   IF \E i \in 1..Len(F) : \E j \in 1..Len(F[i].p) : F[i].p[j].bad THEN "value-outside-exact-domain"
-  ELSE IF \E i \in 1..Len(F) : \E j \in 1..Len(F[i].p) : F[i].p[j].known /\ Abs(F[i].p[j].v) > 2000000 THEN "value-too-large"
+  ELSE IF \E i \in 1..Len(F) : \E j \in 1..Len(F[i].p) : F[i].p[j].known /\ Abs(F[i].p[j].v) > 2500000 THEN "value-too-large"
   ELSE ""
 GeneratorError(P) == IF ~WellFormed(P) THEN "ast-not-well-formed" ELSE FlatError(Flat(P))
 
